@@ -244,6 +244,24 @@ def w_shape_copies(idx):
             out.append(("copy:id-not-fresh:shapes", str(ids), replay))
         if w.parent_links_ok():
             out.append(("copy:parent-link-outside-copy:shapes", str(w.parent_links_ok()), replay))
+        # fresh ids also when the host program puts its own random number generator back into an earlier state between two
+        # copies (re-seeding per unit of work, forked workers): the copy of a copy, both taken under the same generator state
+        if i % 4 == 1:
+            import random as _random
+            state = _random.getstate()
+            w5 = World.build(t["from"])
+            _random.seed(20261004)
+            ok1, r1, _e = w5.apply("copy", op["args"])
+            _random.seed(20261004)
+            ok2, r2, _e = (w5.apply("copy", [r1]) if ok1 else (False, 0, None))
+            _random.setstate(state)
+            if ok1 and ok2:
+                ids5 = [x.id for x in w5.nodes]
+                if len(set(ids5)) != len(ids5):
+                    out.append(("copy:id-not-fresh:host-random-state-repeats", f"{len(ids5) - len(set(ids5))} ids handed out twice", replay))
+                elif any(Node.get_node_instance(x.id) is not x for x in w5.nodes):
+                    out.append(("copy:registry-entry-taken-over:host-random-state-repeats", "", replay))
+            n += 1
         # the same source, its child lists assigned through the `children` property (no parent pointer is set that way;
         # a tree is its child lists): below the copy's root every parent link must point inside the copy all the same
         if i % 2 == 0 and len(t["from"]["kids"]) > 1:
